@@ -139,6 +139,8 @@ type Engine struct {
 	quantVars map[types.Object]bool
 	strLens map[string]int64
 	frame *frame
+	globalOrder []types.Object
+	strLitOrder []string
 	loopFrames []*frame
 	epochLoopFrames map[int][]*frame
 	clauseState *State
@@ -1116,11 +1118,12 @@ func (e *Engine) strLit(s string) T {
 		}
 	}
 	// distinct literals are distinct identities
-	for o, ot := range e.strLits {
+	for _, o := range e.strLitOrder {
 		if o != s {
-			fs = append(fs, Ne(t, ot))
+			fs = append(fs, Ne(t, e.strLits[o]))
 		}
 	}
+	e.strLitOrder = append(e.strLitOrder, s)
 	e.assumeGlobal(And(fs...), "string literal")
 	return t
 }
@@ -1236,7 +1239,9 @@ func (e *Engine) merge(states []*State) *State {
 		}
 		n.Mem = e.name("Mem", Ite(c, s.Mem, acc.Mem))
 		n.alloc = e.name("alloc", Ite(c, s.alloc, acc.alloc))
-		for k, v := range s.vars {
+		// deterministic order: the names introduced here end up in the SMT text
+		for _, k := range sortedObjs(s.vars) {
+			v := s.vars[k]
 			if w, ok := acc.vars[k]; ok {
 				if sameValue(v, w) {
 					n.vars[k] = v
@@ -1245,7 +1250,8 @@ func (e *Engine) merge(states []*State) *State {
 				}
 			}
 		}
-		for k, v := range s.ghost {
+		for _, k := range sortedTKeys(s.ghost) {
+			v := s.ghost[k]
 			if w, ok := acc.ghost[k]; ok {
 				n.ghost[k] = e.name("g_"+k, Ite(c, v, w))
 			}
@@ -1265,6 +1271,32 @@ func nodeText(fset *token.FileSet, n ast.Node) string {
 	var b strings.Builder
 	printNode(&b, fset, n)
 	return b.String()
+}
+
+func sortedTKeys(m map[string]T) []string {
+	var ks []string
+	for k := range m {
+		ks = append(ks, k)
+	}
+	sort.Strings(ks)
+	return ks
+}
+
+func sortedObjs(m map[types.Object]Value) []types.Object {
+	var ks []types.Object
+	for k := range m {
+		ks = append(ks, k)
+	}
+	sort.Slice(ks, func(i, j int) bool {
+		if ks[i].Pos() != ks[j].Pos() {
+			return ks[i].Pos() < ks[j].Pos()
+		}
+		if ks[i].Name() != ks[j].Name() {
+			return ks[i].Name() < ks[j].Name()
+		}
+		return fmt.Sprintf("%p", ks[i]) < fmt.Sprintf("%p", ks[j])
+	})
+	return ks
 }
 
 func sortedBoolKeys(m map[string]bool) []string {
